@@ -33,6 +33,15 @@ Definition pres_value_eqb (a b : pres value) : bool :=
   | _, _ => false
   end.
 
+(* same bytes up to order (fallback for reordered map entries whose message does not parse back, e.g. an enum number
+   without a name) *)
+Definition count_byte (x : N) (b : bytes) : nat := length (filter (N.eqb x) b).
+Definition same_multiset (a b : bytes) : bool :=
+  forallb (fun i => let x := N.of_nat i in Nat.eqb (count_byte x a) (count_byte x b)) (seq 0 256).
+
+Definition both_err (a b : pres value) : bool :=
+  match a, b with PErr, PErr => true | _, _ => false end.
+
 Definition check (c : case) : bool :=
   match c with
   | CRt P ty lossy unordered _ v enc dec =>
@@ -45,7 +54,8 @@ Definition check (c : case) : bool :=
           | IOk ib =>
               (bytes_eqb mb ib
                || (unordered && Nat.eqb (length mb) (length ib)
-                   && pres_value_eqb (parse_proto P d mb) (parse_proto P d ib)))
+                   && (pres_value_eqb (parse_proto P d mb) (parse_proto P d ib)
+                       || (both_err (parse_proto P d mb) (parse_proto P d ib) && same_multiset mb ib))))
               && vres_agrees (parse_proto P d ib) dec
           | _ => false
           end
